@@ -46,6 +46,8 @@ fn control_expr() -> gen::VS {
         5 => decision_literals(),
         3 => select(DATA_KEYS.to_vec()).prop_map(|k| json!({"var": k})),
         1 => select(vec!["x", "y", "nope"]).prop_map(|k| json!({"var": k})),
+        // var with a default that is itself an expression (falsy / truthy / erroring), key present or missing
+        2 => (select(vec!["nope", "missing", "a", "f", "n"]), select(vec![json!({"var": "f"}), json!({"var": "z"}), json!({"var": "a"}), json!({"var": "e"}), json!({"!": [true]}), json!({"cat": []}), json!({"+": [0]}), json!({"merge": []}), json!(0), json!("d"), json!({"/": [1, 0, 0]}), json!({"+": ["x9"]})])).prop_map(|(k, d)| json!({"var": [k, d]})),
         4 => observable(),
     ]
     .boxed();
@@ -183,7 +185,7 @@ fn check_cli(case: &Value, obs: &mut Obs) -> Result<(), String> {
     let out = cli::run(&bin, &rule.to_string(), &cli::Channel::Arg(data.to_string()))?;
     obs.evals += 1;
     if out.timed_out {
-        return Err(format!("the jsonlogic command did not finish within 30 s for {}", fmt_case(rule, data)));
+        return Err(format!("the jsonlogic command did not finish within 180 s (after a first attempt exceeded 30 s) for {}", fmt_case(rule, data)));
     }
     let stdout = String::from_utf8_lossy(&out.stdout).to_string();
     match &m {
